@@ -657,6 +657,13 @@ Theorem c02_maps_roundtrip : forall p l, forallb wf_entry l = true -> parse_maps
 Proof. exact maps_roundtrip. Qed.
 Print Assumptions c02_maps_roundtrip.
 
+(* the tie of that model to the tree: the translator compares the bodies of MinidumpLinuxMaps::read / iter and of
+   MinidumpLinuxMapInfo::memory_range / is_readable / is_writable / is_executable with their expected text (an edit aborts it), and
+   regenerates the procfs-core version from Cargo.lock: the parser modelled is the one the tree is built with *)
+Theorem c02_maps_reader_pinned : RD_PROCFS_CORE_VERSION = MODELLED_PROCFS_CORE.
+Proof. reflexivity. Qed.
+Print Assumptions c02_maps_reader_pinned.
+
 (* the same through the whole file: the listing is the LinuxMaps stream of a well-formed 20-stream model, serialized in either byte
    order; Minidump::read followed by get_stream::<MinidumpLinuxMaps> *)
 Theorem c02_maps_in_dump : forall p e m l, wf_model e m = true -> m_lx_maps m = Some (maps_text l) -> forallb wf_entry l = true ->
